@@ -9,7 +9,8 @@
    Partial (stated here, observed per input by checks/c17.py, not proved): that the parser productions
    of vhdl_syntax consume every token of the stream and close every node they open.  The productions
    are abstracted as an arbitrary program `ops` over the parser utilities; `C17_parse_lossless`
-   has the hypothesis `rest = []` ("all tokens consumed") and "the program ends without a panic". *)
+   has the hypotheses `rest = []`, `d = None` ("all tokens consumed") and "the program ends without a
+   panic"; `C17_parse_lossless_bail` derives them for a program that bailed out and closes its root. *)
 From Coq Require Import List NArith Arith Bool.
 Import ListNotations.
 From RH Require Import Lex.SynLexer Lex.SynLexerProofs Cst.Green Cst.Builder Cst.Rewrite Cst.CstProofs.
@@ -88,19 +89,33 @@ Theorem C17_builder_current_pos :
 Proof. exact builder_current_pos. Qed.
 
 (* The parser as a program over its utilities (skip/expect/opt = take one token, start_node, end_node,
-   start_node_at, expect_tokens_recover): if it ends without panic and consumed the whole stream, the
-   tree prints the input; in any case every reported error span lies within the input. *)
+   start_node_at, expect_tokens_recover; since d10aa14 also the bail-out of check_nesting_depth after
+   more than `max` open nodes and push_deferred_tokens when the root is closed): if it ends without
+   panic, the tree, the unconsumed stream and the tokens still set aside print the input; if nothing
+   is left the tree prints the input; in any case every reported error span lies within the input. *)
 Theorem C17_parse_lossless :
-  forall kws bs ts ops root errs rest,
-    token_stream kws bs = Some ts -> parse_with ops ts = Some (root, errs, rest) ->
-    bytes_of root ++ printed rest = bs /\
+  forall max kws bs ts ops root errs rest d,
+    token_stream kws bs = Some ts -> parse_with max ops ts = Some (root, errs, rest, d) ->
+    bytes_of root ++ printed rest ++ printed (deferred_list d) = bs /\
     len_ok root = true /\
-    (rest = [] -> bytes_of root = bs /\ leaves root = map fst ts /\ glen root = N.of_nat (length bs)).
+    (rest = [] -> d = None ->
+       bytes_of root = bs /\ leaves root = map fst ts /\ glen root = N.of_nat (length bs)).
 Proof. exact parse_lossless. Qed.
 
+(* Bail-out on input that is nested too deep: a program that has set tokens aside and then closes its
+   root node has consumed every token, and the tree prints the input (lossless after bail-out). *)
+Theorem C17_parse_lossless_bail :
+  forall max kws bs ts ops s1 dts s2 root,
+    token_stream kws bs = Some ts -> p_run max ops (p_init ts) = POk s1 ->
+    p_deferred s1 = Some dts -> p_depth s1 = 1%nat ->
+    p_step max PEnd s1 = POk s2 -> b_end (p_builder s2) = Some root ->
+    p_stream s2 = [] /\ p_deferred s2 = None /\ bytes_of root = bs /\ leaves root = map fst ts /\
+    len_ok root = true /\ glen root = N.of_nat (length bs).
+Proof. exact parse_lossless_bail. Qed.
+
 Theorem C17_error_spans_inside :
-  forall kws bs ts ops root errs rest,
-    token_stream kws bs = Some ts -> parse_with ops ts = Some (root, errs, rest) ->
+  forall max kws bs ts ops root errs rest d,
+    token_stream kws bs = Some ts -> parse_with max ops ts = Some (root, errs, rest, d) ->
     Forall (fun sp : N * N => fst sp <= snd sp /\ snd sp <= N.of_nat (length bs)) errs.
 Proof. exact error_spans_inside. Qed.
 
@@ -240,10 +255,21 @@ Proof. exact ex_build. Qed.
    error of `$`, one recovery error and the unterminated comment, all inside the 8 input bytes *)
 Example C17_ex_parse :
   exists ts root, token_stream kw2008 [97; 32; 36; 32; 98; 32; 47; 42] = Some ts /\
-    parse_with [PStart 1; PTake; PStart 2; PRecover 2 false; PEnd; PTake; PEnd] ts
-      = Some (root, [(2, 3); (2, 5); (6, 8)], []) /\
+    parse_with 1024 [PStart 1; PTake; PStart 2; PRecover 2 false; PEnd; PTake; PEnd] ts
+      = Some (root, [(2, 3); (2, 5); (6, 8)], [], None) /\
     bytes_of root = [97; 32; 36; 32; 98; 32; 47; 42].
 Proof. exact ex_parse. Qed.
+
+(* a program that bails out ("a b $ d" with at most 2 open nodes): the third start_node reports `$` as
+   unexpected and sets `$ d Eof` aside; closing the root pushes them (with the lexer error of `$`) *)
+Example C17_ex_bail :
+  exists ts root s1, token_stream kw2008 [97; 32; 98; 32; 36; 32; 100] = Some ts /\
+    parse_with 2 [PStart 1; PTake; PStart 2; PTake; PStart 3; PTake; PEnd; PEnd; PEnd] ts
+      = Some (root, [(4, 5); (4, 5)], [], None) /\
+    bytes_of root = [97; 32; 98; 32; 36; 32; 100] /\
+    p_run 2 [PStart 1; PTake; PStart 2; PTake; PStart 3; PTake; PEnd; PEnd] (p_init ts) = POk s1 /\
+    p_depth s1 = 1%nat /\ p_deferred s1 <> None.
+Proof. exact ex_bail. Qed.
 
 (* a single-token replacement (clone_with_text) on the tree of C17_ex_build *)
 Example C17_ex_replace :
@@ -265,8 +291,8 @@ Check C17_rewrite_leave_id : forall g, len_ok g = true -> rewrite leave_all tt g
 Check C17_token_rewrite_keep_id :
   forall g, len_ok g = true -> token_rewrite no_hook keep_all no_hook tt g = g.
 Check C17_error_spans_inside :
-  forall kws bs ts ops root errs rest,
-    token_stream kws bs = Some ts -> parse_with ops ts = Some (root, errs, rest) ->
+  forall max kws bs ts ops root errs rest d,
+    token_stream kws bs = Some ts -> parse_with max ops ts = Some (root, errs, rest, d) ->
     Forall (fun sp : N * N => fst sp <= snd sp /\ snd sp <= N.of_nat (length bs)) errs.
 
 Print Assumptions C17_lex_total.
@@ -279,6 +305,7 @@ Print Assumptions C17_token_stream_lossless.
 Print Assumptions C17_builder_lossless.
 Print Assumptions C17_builder_current_pos.
 Print Assumptions C17_parse_lossless.
+Print Assumptions C17_parse_lossless_bail.
 Print Assumptions C17_error_spans_inside.
 Print Assumptions C17_recover_contract_violation.
 Print Assumptions C17_take_never_crashes.
@@ -292,4 +319,5 @@ Print Assumptions C17_replace_text_local.
 Print Assumptions C17_ex_lex.
 Print Assumptions C17_ex_build.
 Print Assumptions C17_ex_parse.
+Print Assumptions C17_ex_bail.
 Print Assumptions C17_ex_replace.
